@@ -97,8 +97,8 @@ NCHUNK = 48
 
 def bounds(tier):
   if tier == 'quick':
-    return dict(families=[[FULL, 2, 1], [["cfg", "list2", "dict2"], 2, 6],
-                          [['cfg', 'pa', 'list2'], 3, 1],
+    return dict(families=[[FULL, 2, 1], [["cfg", "list2", "dict2"], 2, 6, 'leaves'],
+                          [['cfg', 'pa', 'list2'], 3, 1, 'notags'],
                           [['cfg', 'tuple1'], 4, 2, 'light']],
                 complexities=[None, 1], histories=[False, True])
   return dict(families=[[FULL, 2, 2], [['cfg', 'list2', 'dict2'], 2, 6],
@@ -119,6 +119,8 @@ def all_cases(b):
     profile = fam[3] if len(fam) > 3 else 'full'
     for s in shapes.all_shapes([kk[m] for m in menu], n, nl,
                                root_kinds=ROOTS):
+      if profile == 'light' and not any(k.startswith('tuple') for k, _ in s):
+        continue   # the light family is about tuples; the rest is covered
       if s not in seen:
         seen.add(s)
         yield s, profile
@@ -245,8 +247,9 @@ def run_shapes(k, b, res):
     res.states += 1
     if len(shape) > 1:
       res.nontrivial += 1
-    light = profile == 'light'
-    for tagged in ((False,) if light else (False, True, 'two')):
+    light = profile in ('light', 'leaves')
+    for tagged in ((False,) if profile in ('light', 'notags') else (
+        False, True, 'two')):
       for gen in GENERATORS:
         for subidx in ([()] if light else subsets):
           for complexity in ([None, 0] if light else b['complexities']):
